@@ -3,6 +3,7 @@ FMT = "hippolyzer/lib/base/message/message_formatting.py"
 HELPERS = "hippolyzer/lib/base/helpers.py"
 TEMPLATES = "hippolyzer/lib/base/templates.py"
 SER = "hippolyzer/lib/base/serialization.py"
+DT = "hippolyzer/lib/base/datatypes.py"
 
 GUARD = ("                if evaled and safe:\n"
          "                    raise ValueError(\"Can't use eval operator in safe mode\")\n")
@@ -227,12 +228,12 @@ VARIANTS = [
      "old": "            var_data = str(var_val)\n",
      "new": "            var_data = str(var_val) if isinstance(var_val, uuid.UUID) else \\\n"
             "                \"<\" + \", \".join(repr(c) for c in var_val) + \">\"\n"},
-    {"name": "R5 IntFlag.decode builds the flag class from negatives (D7)", "file": SER, "expect": "C11.R5",
+    {"name": "X09.R2 IntFlag.decode builds the flag class from negatives (D7)", "file": SER, "expect": "C11.X09.R2",
      "old": "        if val < 0:\n            # Signed field with the sign bit set, enum.IntFlag can't represent\n"
             "            # negative values without changing them. Leave it as an int.\n            return val\n"
             "        return self.flag_cls(val)\n",
      "new": "        return self.flag_cls(val)\n"},
-    {"name": "R5 IntFlag.encode folds members with operator.or_", "file": SER, "expect": "C11.R5",
+    {"name": "X09.R2 IntFlag.encode folds members with operator.or_", "file": SER, "expect": "C11.X09.R2",
      "old": "            new_val |= int(v)\n", "new": "            new_val = new_val | v\n"},
     {"name": "P5 accumulator renamed in IntFlag.encode", "expect": "silent",
      "edits": [{"file": SER, "old": "new_val", "new": "bits", "all": True}]},
@@ -261,6 +262,24 @@ VARIANTS = [
                        "            blk[name] = ser.serialize(blk, raw)\n"
                        "        todo.clear()\n\n"
                        "    @classmethod\n    def to_human_string("}]},
+    # ------------------------------------------------------------------ round 4
+    {"name": "R4 coordinate __str__ rounds its components", "file": DT, "expect": "C11.R4",
+     "old": "        return f\"<{repr(tuple(self))[1:-1]}>\"\n",
+     "new": "        return f\"<{repr(tuple(round(c, 7) for c in self))[1:-1]}>\"\n"},
+    {"name": "R4 coordinate __str__ scales its components", "file": DT, "expect": "C11.R4",
+     "old": "        return f\"<{repr(tuple(self))[1:-1]}>\"\n",
+     "new": "        return f\"<{repr(tuple(c * 1.0 for c in self))[1:-1]}>\"\n"},
+    {"name": "P4 coordinate __str__ joins the component reprs", "file": DT, "expect": "silent",
+     "old": "        return f\"<{repr(tuple(self))[1:-1]}>\"\n",
+     "new": "        return \"<\" + \", \".join(repr(c) for c in self) + \">\"\n"},
+    {"name": "P2 multi-line printer as a module-level function joining with the marker", "expect": "silent",
+     "edits": [{"file": FMT, "old": "class HumanMessageSerializer:\n",
+                "new": "_CONT = \" \\\\\\n\"\n\n\ndef _wrap_literal(val):\n"
+                       "    rows = HippoPrettyPrinter(width=100).pformat(val).splitlines()\n"
+                       "    return _CONT.join(r if i == 0 else \"    \" + r for i, r in enumerate(rows))\n\n\n"
+                       "class HumanMessageSerializer:\n"},
+               {"file": FMT, "old": "        printer = HippoPrettyPrinter(width=100)\n        val = printer.pformat(val)\n        newstr = \"\"\n",
+                "new": "        return _wrap_literal(val)\n        printer = HippoPrettyPrinter(width=100)\n        val = printer.pformat(val)\n        newstr = \"\"\n"}]},
     # ------------------------------------------------------------------ documented limits
     {"name": "X wrap width changed (line-wrapping details are value level)", "file": FMT, "expect": "miss",
      "old": "HippoPrettyPrinter(width=100)", "new": "HippoPrettyPrinter(width=40)"},
